@@ -20,6 +20,26 @@ Theorem C16_clone_source_touches_no_other_file :
   clone_source_touches_no_other_file = true /\ clone_open_options_count = 1.
 Proof. split; reflexivity. Qed.
 
+(* the whole effect trace of the clone command: a prefix of  open(output, never truncating) ; chunk writes ;
+   set_len(|source|) -- at most one open for writing, nothing written before it, the length set only after the writes
+   and only to the source length, nothing else; a command that succeeds ran the full sequence (no set_len on a device) *)
+Theorem C16_clone_trace_shape : forall env,
+  let r := clone_cmd_model env in
+  exists cr ex ok k,
+    s_eff r = firstn k [EOpenW 0 cr ex false ok; EWrites; ESetLen (lenN (e_src env))]
+    /\ (s_failed r = false -> ok = true /\ k = match e_out env with Blk _ => 2%nat | _ => 3%nat end).
+Proof. exact clone_trace_shape. Qed.
+
+(* a compress that fails in the model did so at the refused open of the output: no temporary file was created,
+   nothing was removed, the output entry is what it was *)
+Theorem C16_compress_failed_no_temp : forall env,
+  let r := compress_cmd_model env in
+  s_failed r = true ->
+  exists cr ex tr, s_eff r = [EOpenW 0 cr ex tr false] /\ s_out r = z_out env.
+Proof. exact compress_failed_no_temp. Qed.
+
 Print Assumptions C16_clone_effects.
 Print Assumptions C16_compress_effects.
 Print Assumptions C16_clone_source_touches_no_other_file.
+Print Assumptions C16_clone_trace_shape.
+Print Assumptions C16_compress_failed_no_temp.
